@@ -840,7 +840,7 @@ func (c *Conn) dispatch(fr *FrameHeader) bool {
 			c.consumeConnWindow(fr.Len())
 		}
 
-		return false
+		return c.skipHeaderBlock(fr)
 	}
 
 	// A canceled or finished request has taken its Response back, so there is
@@ -852,7 +852,7 @@ func (c *Conn) dispatch(fr *FrameHeader) bool {
 			c.consumeConnWindow(fr.Len())
 		}
 
-		return false
+		return c.skipHeaderBlock(fr)
 	}
 
 	// The Ctx is given back before finish: finish closes a streamed request
@@ -911,6 +911,35 @@ func (c *Conn) failAbove(last uint32) {
 			c.finish(r, id, ErrConnectionClosed)
 		}
 	}
+}
+
+// skipHeaderBlock runs a header block nobody is waiting for through the
+// decoder. The dynamic table belongs to the connection, not to the stream: the
+// server encoded this block against it, and every later response is decoded
+// against what this one leaves behind. It reports whether the read loop should
+// stop, which it should when the block does not decode: from then on the table
+// cannot be trusted.
+func (c *Conn) skipHeaderBlock(fr *FrameHeader) bool {
+	if fr.Type() != FrameHeaders && fr.Type() != FrameContinuation {
+		return false
+	}
+
+	hf := AcquireHeaderField()
+	defer ReleaseHeaderField(hf)
+
+	b := fr.Body().(FrameWithHeaders).Headers()
+
+	var err error
+
+	for len(b) > 0 && err == nil {
+		b, err = c.dec.Next(hf, b)
+	}
+
+	if err != nil {
+		c.setLastErr(NewGoAwayError(CompressionError, err.Error()))
+	}
+
+	return err != nil
 }
 
 // readStreamOwned runs readStream on a Ctx the caller has acquired and
